@@ -39,6 +39,7 @@ func main() {
 
 type peak struct {
 	forks, stack, scopes, paths, values, sdepth, cdepth, pdepth, offset int
+	sum int // peak over instants of forks + stack.data + scopes.data + values (the footprint coq/c20/EVM.v bounds)
 }
 
 func (p *peak) add(f gojq.VerifFoot) {
@@ -51,6 +52,7 @@ func (p *peak) add(f gojq.VerifFoot) {
 	p.cdepth = max(p.cdepth, f.ScopeDepth)
 	p.pdepth = max(p.pdepth, f.PathDepth)
 	p.offset = max(p.offset, f.Offset)
+	p.sum = max(p.sum, f.Forks+f.StackData+f.ScopeData+f.Values)
 }
 
 func (p peak) String() string {
@@ -294,11 +296,30 @@ func runFp(c *Ctx) {
 			c.Count("form")
 			c.Emit("(fp %s %d %s (a %s) (b %s) (end %s %s) (polls %d %d) (outputs %d %d))", Hexs([]byte(f.src)), n, f.mode,
 				a.pk, b.pk, a.end, b.end, a.polls, b.polls, a.outputs, b.outputs)
+			if n == ns[0] {
+				emitEvmCert(c, f, a.pk.sum, b.pk.sum)
+			}
 			if b.pk.forks > a.pk.forks+8 || b.pk.stack > a.pk.stack+8 || b.pk.scopes > a.pk.scopes+8 || b.pk.paths > a.pk.paths+8 || b.pk.values > a.pk.values+16 {
 				break // already growing at this n (judged by the model); a larger n adds nothing
 			}
 		}
 	}
+}
+
+// emitEvmCert: the erased compiled code of the measured program for the verified certifier (coq/c20/Run.v judge_evmcert):
+// a certificate proves the footprint bounded for every loop count; the measured peaks must lie within it.
+func emitEvmCert(c *Ctx, f form, sumA, sumB int) {
+	ninputs := 0
+	code, err := compile(f.src, ninputs)
+	if err != nil {
+		return
+	}
+	var sb strings.Builder
+	for _, in := range gojq.VerifDumpCode(code) {
+		sb.WriteString(" ")
+		sb.WriteString(einstrSexp(in))
+	}
+	c.Emit("(evmcert %s 1 %d %d (code%s))", Hexs([]byte(f.src)), sumA, sumB, sb.String())
 }
 
 // nestTail wraps the tail expression e in one more construct that keeps it in tail position
